@@ -574,8 +574,8 @@ def gen_structured_text(rng):
         ui_txt = rng.choice(["u@", "u:p@", ":p@", "u:@", "a@b@"])
         defects.append(("MalformedUrlError", "user info"))
     elif k < 0.09:
-        ui_txt = rng.choice(["@", ":@"])      # empty user info: tolerated by the implementation
-        unmodelled = True
+        ui_txt = rng.choice(["@", ":@"])      # empty user info is user info
+        defects.append(("MalformedUrlError", "user info"))
     # path
     k = rng.random()
     path = []
